@@ -135,7 +135,7 @@ func rulePRECPLUMBING(c *Ctx) {
 		for _, fn := range c.SrcFuncs("compiler") {
 			for _, b := range fn.Blocks {
 				for _, ins := range b.Instrs {
-					if ph, ok := ins.(*ssa.Phi); ok && ph.Comment == "assoc" && strings.HasSuffix(ph.Type().String(), "lalr.Associativity") {
+					if ph, ok := ins.(*ssa.Phi); ok && strings.HasSuffix(ph.Type().String(), "lalr.Associativity") && len(ph.Edges) >= 3 {
 						g = fn
 						got := map[string]int64{}
 						for i, e := range ph.Edges {
